@@ -46,6 +46,8 @@ def ty_vy(t):
         return t[1]
     if k == "dec":
         return "decimal"
+    if k == "bytesm":
+        return f"bytes{t[1]}"
     raise ValueError(t)
 
 
@@ -59,6 +61,8 @@ def ty_abi(t):
         return "uint256"
     if k == "dec":
         return "int168"      # same encoding as fixed168x10 (the signature uses ty_sig)
+    if k == "bytesm":
+        return f"bytes{t[1]}"
     if k in ("int", "bool"):
         return ty_vy(t)
     if k == "addr":
@@ -92,6 +96,8 @@ def ty_coq(t):
         return f"(TInt {t[1]} {'true' if t[2] else 'false'})"
     if k == "dec":
         return "(TInt 168 true)"
+    if k == "bytesm":      # bytesM: the M-byte string read as a big-endian number (left-aligned in the ABI word / slot)
+        return f"(TInt {8 * t[1]} false)"
     if k == "flag":      # a flag with n members is an n-bit mask: ABI validation is `value < 2**n`
         return f"(TInt {t[2]} false)"
     if k == "bool":
@@ -113,7 +119,7 @@ def ty_coq(t):
 
 def zero_val(t):
     k = t[0]
-    if k in ("int", "addr", "flag", "dec"):
+    if k in ("int", "addr", "flag", "dec", "bytesm"):
         return 0
     if k == "bool":
         return False
@@ -148,6 +154,8 @@ def val_vy(v, t):
         return "True" if v else "False"
     if k == "bytes":
         return 'b"' + "".join(f"\\x{b:02x}" for b in v) + '"'
+    if k == "bytesm":
+        return "0x" + int(v).to_bytes(t[1], "big").hex()
     if k == "dec":
         txt = f"{abs(v) // DEC_SCALE}.{abs(v) % DEC_SCALE:010d}"
         return f"(-{txt})" if v < 0 else txt
